@@ -367,6 +367,8 @@ func generate() {
 			}
 		}
 	}
+	generateMarshal(w, r)
+	generateLegacyRead(w, r)
 }
 
 func emitCase(w *bufio.Writer, i int, m msgs.Msg, ver int16, f *filler, msg protocol.Message, withClientID bool) {
@@ -459,6 +461,8 @@ func child() {
 		if p[0] == "sasl" {
 			frame, _ = hex.DecodeString(p[2])
 			ok = true
+		} else if strings.HasPrefix(p[0], "P") {
+			m, ver, _, ok = caseOf([3]string{p[0][1:], p[1], "-"})
 		} else {
 			m, ver, frame, ok = caseOf([3]string{p[0], p[1], p[2]})
 		}
@@ -472,11 +476,13 @@ func child() {
 		out := ""
 		if p[0] == "sasl" {
 			out = saslRaw(frame)
+		} else if strings.HasPrefix(p[0], "P") {
+			out = decodePipelined(m, ver, p[2])
 		} else {
 			out = decodeReal(m, ver, frame)
 		}
 		runtime.ReadMemStats(&after)
-		if out != "err" && out != "panic" {
+		if out != "err" && out != "panic" && !strings.Contains(out, ",") {
 			out = "ok"
 		}
 		fmt.Fprintf(w, "done %d %s %d\n", n, out, after.TotalAlloc-before.TotalAlloc)
@@ -497,6 +503,43 @@ func (s *syncBuffer) Write(p []byte) (int, error) {
 }
 func (s *syncBuffer) Len() int       { s.mu.Lock(); defer s.mu.Unlock(); return s.b.Len() }
 func (s *syncBuffer) String() string { s.mu.Lock(); defer s.mu.Unlock(); return s.b.String() }
+
+// decodePipelined decodes TWO response frames arriving back to back on one connection ("hex1.hex2") with the
+// same bufio.Reader: "<o1>,<o2>".  o2 is ok only when the second frame decodes without error to ITS correlation
+// id - i.e. when decoding the first frame consumed exactly one frame.
+func decodePipelined(m msgs.Msg, ver int16, arg string) (out string) {
+	o1, o2 := "err", "-"
+	defer func() {
+		if e := recover(); e != nil {
+			if o2 == "-" {
+				out = "panic,-"
+			} else {
+				out = o1 + ",panic"
+			}
+		}
+	}()
+	parts := strings.SplitN(arg, ".", 2)
+	if len(parts) != 2 {
+		return "err,-"
+	}
+	b1, _ := hex.DecodeString(parts[0])
+	b2, _ := hex.DecodeString(parts[1])
+	r := bufio.NewReader(bytes.NewReader(append(append([]byte(nil), b1...), b2...)))
+	_, msg, err := protocol.ReadResponse(r, protocol.ApiKey(m.ApiKey), ver)
+	if err != nil || msg == nil {
+		return "err,-"
+	}
+	o1, o2 = "ok", "err"
+	want := int32(-1)
+	if len(b2) >= 8 {
+		want = int32(uint32(b2[4])<<24 | uint32(b2[5])<<16 | uint32(b2[6])<<8 | uint32(b2[7]))
+	}
+	corr, msg2, err := protocol.ReadResponse(r, protocol.ApiKey(m.ApiKey), ver)
+	if err == nil && msg2 != nil && corr == want {
+		o2 = "ok"
+	}
+	return o1 + "," + o2
+}
 
 // saslRaw runs the un-framed SASL token exchange of protocol/saslauthenticate (taken by protocol.Conn.RoundTrip when
 // the broker's SaslHandshake version is 0) against a peer that answers with the given bytes.
@@ -649,7 +692,7 @@ func malgen() {
 		for ver := lo; ver <= hi; ver++ {
 			modes := []int{1}
 			if gen.Thorough() {
-				modes = []int{1, 2, 2}
+				modes = []int{1, 2}
 			}
 			for _, mode := range modes {
 				f := &filler{r: r, payloads: msgs.Payloads{}, version: ver, mode: mode}
